@@ -202,7 +202,19 @@ Definition infra_agree (case : pterm Z * Z * (bool * bool * xres (nat * bool) * 
   && xres_eqb (fun a b => Nat.eqb (fst a) (fst b) && Bool.eqb (snd a) (snd b)) r r'
   && list_eqb Z.eqb d d'.
 
-(* ====================================================================== B. call_onnx_api_before_fix *)
+(* PassBase.__call__ accepts an ir.Model or a PassResult; of a PassResult only `.model` is read, so the incoming
+   `modified` flag (None = a Model was passed) plays no role: the result describes THIS application only. *)
+Definition exec_arg (p : pterm Z) (w : world Z) (m : nat) (incoming : option bool) : world Z * xres (nat * bool) :=
+  exec Z p w m.
+
+Definition infra_agree_arg (case : option bool * (pterm Z * Z * (bool * bool * xres (nat * bool) * list Z))) : bool :=
+  let '(inc, (p, c, (ip, ch, r, d))) := case in
+  let '(w', r') := exec_arg p (world0 c) 0 inc in
+  Bool.eqb ip (in_place Z p) && Bool.eqb ch (changes_input Z p)
+  && xres_eqb (fun a b => Nat.eqb (fst a) (fst b) && Bool.eqb (snd a) (snd b)) r r'
+  && list_eqb Z.eqb d (dump w').
+
+(* ====================================================================== B. call_onnx_api *)
 
 Record tensor : Type := { t_id : Z; t_nbytes : Z; t_shape : Z; t_dtype : Z; t_raises : bool }.
 Record value : Type := { v_const : option tensor; v_shape : option Z; v_dtype : option Z }.
@@ -570,7 +582,8 @@ Definition of_agree
   list_eqb canon_eqb (map (of_canon next) m') obs && Bool.eqb pf f.
 
 (* ====================================================================== E. RemoveUnusedOpsetsPass
-   A graph-like: the keys of opset_imports (dict order) and the domains of all its nodes (recursively).
+   A graph-like: the keys of opset_imports (dict order) and the domains of all its nodes, RECURSIVELY (nodes of
+   If/Loop/Scan bodies at any depth count for the enclosing graph or function: RecursiveGraphIterator).
    Domains are tokens; 1 = "" (always retained).  Main graph: also the domains of all functions are retained. *)
 Record uograph : Type := { uo_imports : list positive; uo_node_domains : list positive }.
 
